@@ -213,6 +213,25 @@ func c09(args []string) {
 			jobs = append(jobs, &job{s: s2, exp: exp, mode: kind, cfg: cfg, fp: p.Name, idx: unformIdx})
 		}
 	}
+	// a task with three outputs of which the command silently produces only two (exit 0): which output the library
+	// looks at last is a matter of Go's map order, so the case is repeated
+	{
+		s := &spec.Spec{Name: "threeout", MaxTasks: 2, Sources: map[string]string{"m0.txt": "m0\n", "m1.txt": "m1\n"}}
+		in := []spec.PortDecl{{Name: "in"}}
+		s.Procs = append(s.Procs, &spec.Proc{Name: "src", Kind: spec.KFileSource, Files: []string{"m0.txt", "m1.txt"}},
+			&spec.Proc{Name: "T", Kind: spec.KCmd, Cmd: spec.BuildCmd("T", in, []spec.PortDecl{{Name: "out"}, {Name: "res"}, {Name: "aux"}}, nil, nil, nil)},
+			&spec.Proc{Name: "D", Kind: spec.KCmd, Cmd: spec.BuildCmd("D", in, []spec.PortDecl{{Name: "out"}}, nil, nil, nil)})
+		s.Conns = append(s.Conns, &spec.Conn{From: "src.out", To: "T.in"}, &spec.Conn{From: "T.res", To: "D.in"})
+		exp := evalRef(s, nil)
+		if exp.Err != "" {
+			c.Broken("reference cannot evaluate the three-output shape: " + exp.Err)
+		}
+		for k := 0; k < c.Pick(8, 24); k++ {
+			f := exp.ByProc["T"][k%2]
+			mode := []string{"omit-output", "wrong-place"}[(k/2)%2]
+			jobs = append(jobs, &job{s: s, exp: exp, f: f, mode: mode, bh: vproto.Behaviours{f.Key: {"fail": mode, "sleep": "10"}}, cfg: Cfg{Buf: 128, Procs: []int{1, 2, 4}[k%3]}, idx: -1})
+		}
+	}
 	// shapes in which the workflow's sink drains a file branch and a parameter branch (RunTo cuts, unconsumed
 	// parameter sources): a task that fails after the parameter stream is long closed must still fail the program
 	for _, s := range c05Shapes(c, rng) {
